@@ -71,7 +71,7 @@ theorem c02_residual_layout (P : Problem U s) (c : Cache n m s K) (h : P.cached 
           _ = n * s := Nat.mul_comm s n) = c.residuals.get i j := by
   refine ⟨c.residuals.vec, by simp [Problem.residuals, h], ?_⟩
   have hn : 0 < n := by have := i.isLt; omega
-  simp only [Mat.vec, Vector.getElem_ofFn]
+  simp only [Mat.vec, Vector.getElem_ofFn, Mat.vecGet]
   congr 1
   · apply Fin.ext; simp [Nat.add_mul_mod_self_right, Nat.mod_eq_of_lt i.isLt]
   · apply Fin.ext
